@@ -374,6 +374,47 @@ def rule_dropabsent(E, R):
             "an absent result must behave like an absent field of the declared return type", hc["span"] if hc else "")
 
 
+def rule_absence(E, R):
+    """an argument without a value is passed on as a typed absence: evaluated arguments reach the function as
+    `Result<LhsValue, Type>` unmodified, in both the memoised and the re-evaluating path, and the run-time closures
+    have no early exit of their own"""
+    rule = "R03-absence"
+    hc = E.hir(COMPILE_FN)
+    if not hc:
+        return R.cannot(rule, COMPILE_FN, "anchor not found")
+    n = 0
+    # every run-time closure handed to CompiledValueExpr::new
+    for c in exprs(hc["body"], "Call"):
+        if norm(c.get("callee", "")) != "filter::CompiledValueExpr::new":
+            continue
+        clo = closure_of(c["args"][0])
+        if not clo:
+            continue
+        n += 1
+        rets = [r for r in exprs(clo["body"], "Ret")]
+        R.check(not rets, rule, COMPILE_FN, "run-time closure #%d has no early return (an absent argument does not short-circuit the call)" % n,
+                "the closure returns early: e.g. bailing out when an argument is absent makes memoised and re-evaluated "
+                "arguments disagree and hides the typed absence from the function", clo["sp"])
+        for m in exprs(clo["body"], "MethodCall"):
+            if m["m"] != "collect":
+                continue
+            root, ch = chain(m)
+            if local_name(root) not in ("args", "extra_args"):
+                continue
+            if not any(x["m"] == "map" and closure_of(x["args"][0]) and
+                       any(y["m"] == "execute" for y in exprs(closure_of(x["args"][0])["body"], "MethodCall")) for x in ch):
+                continue
+            ty = norm(m.get("ty", ""))
+            good = ty.startswith("alloc::vec::Vec<core::result::Result<types::LhsValue, types::Type>")
+            R.check(good, rule, COMPILE_FN, "evaluated extra arguments are kept as Vec<Result<LhsValue, Type>> (absences preserved)",
+                    "collected into `%s`" % ty[:120], m["sp"])
+        bad = [m["m"] for m in exprs(clo["body"], "MethodCall")
+               if m["m"] in ("ok", "unwrap", "unwrap_or", "unwrap_or_default", "unwrap_or_else", "flatten", "filter_map", "expect") and
+               norm(m["recv"].get("ty", "")).startswith("core::result::Result<types::LhsValue")]
+        R.check(not bad, rule, COMPILE_FN, "closure #%d does not unwrap or drop an argument's Result" % n, str(bad), clo["sp"])
+    R.floor(rule, "run-time closures of a compiled call", n, 4)
+
+
 def rule_concat(E, R):
     rule = "R03-concat"
     fn = "functions::concat::concat_impl"
@@ -428,6 +469,7 @@ def run(F, R, tier):
     rule_order(E, R)
     rule_defaults(E, R)
     rule_dropabsent(E, R)
+    rule_absence(E, R)
     rule_concat(E, R)
     R.analysed["bodies"] = {c.name: len(c.mir_list) for c in F.crates}
     R.not_decided += [
